@@ -365,7 +365,7 @@ def run(ck):
     # 3. code -> spec
     r = rng(37)
     events = []
-    for _ in range(ck.pick(1200, 12000)):
+    for _ in range(ck.pick(800, 12000)):
         e = rnd_expr(r, r.randint(0, 3))
         ev = observe_render(real, len(events), e)
         if count_conditions(e) >= 2 and not ev["refused"]:
